@@ -82,6 +82,9 @@ def _mask(rng, shape, weights=True):
     if weights and rng.integers(0, 2):
         w = rng.integers(1, 5, shape) * np.array([0.5, -1.0, 2.0, 7.0])[rng.integers(0, 4, shape)]
         m = m * w
+    t = rng.integers(0, 6)
+    if weights and t == 0: m = m * 1e-9                                   # a weight/amplitude map in nano-scale units
+    elif weights and t == 1: m = m * np.array([1.0, 1e-10, -3e-12, 1e-300])[rng.integers(0, 4, shape)]   # ordinary and tiny weights mixed
     return m
 
 def generate(rng, tier):
@@ -94,6 +97,12 @@ def generate(rng, tier):
     if tier == 'thorough':
         for _ in range(40):
             out.append({'kind': 'index_list', 'js': sorted(int(x) for x in rng.integers(20001, 1000001, 50))})
+    if tier in ('search', 'thorough'):
+        # extremes: indices near 2^31, 2^32 and 10^10 (float row search), row boundaries n(n+1)/2 and n(n+1)/2 + 1
+        big = [2 ** 31 - 1, 2 ** 31, 2 ** 32 + 1, 10 ** 9, 10 ** 10 + 7]
+        for n in (1000, 46340, 65535, 92681):
+            big += [n * (n + 1) // 2, n * (n + 1) // 2 + 1]
+        out.append({'kind': 'index_list', 'js': sorted(big)})
     # ---- radial: every valid (n, m), n <= 40
     nm = [(n, m) for n in range(0, 41) for m in range(n % 2, n + 1, 2)]
     if tier == 'search': nm = nm[:200]
@@ -110,7 +119,8 @@ def generate(rng, tier):
         rho = [int(x) / 8 for x in rng.integers(0, 9, sh[0] * sh[1])]
         if k % 7 == 0: rho = [int(x) / 8 for x in rng.integers(0, 13, sh[0] * sh[1])]       # caller coordinates beyond the unit disk
         theta = [int(x) / 4 for x in rng.integers(-13, 14, sh[0] * sh[1])]
-        mask = [float(x) for x in (rng.integers(0, 3, sh[0] * sh[1]) * np.array([1.0, 0.5, -2.0])[rng.integers(0, 3, sh[0] * sh[1])])]
+        wts = np.array([1.0, 0.5, -2.0]) if k % 4 != 1 else np.array([1e-9, -3e-12, 1e-300])      # support only: tiny non-zero weights count
+        mask = [float(x) for x in (rng.integers(0, 3, sh[0] * sh[1]) * wts[rng.integers(0, 3, sh[0] * sh[1])])]
         c = {'kind': 'zern', 'j': j, 'normalize': bool(k % 2), 'shape': list(sh), 'rho': rho, 'theta': theta, 'mask': mask}
         if k % 9 == 4 and any(x == 0 for x in mask) and j > 1:
             # arbitrary caller coordinates: non-finite where the mask is zero (e.g. a polar grid undefined outside the pupil)
@@ -138,6 +148,10 @@ def generate(rng, tier):
         if k % 6 == 5: c['shift'] = [int(rng.integers(-8, 9)) / 4, int(rng.integers(-8, 9)) / 4]
         if k % 3 == 0: c['j'] = int(rng.integers(1, 37)); c['normalize'] = bool(rng.integers(0, 2))
         out.append(c)
+    if tier in ('search', 'thorough'):
+        for sh in ((257, 64), (90, 301)):                       # large arrays, off-centre weighted masks
+            m = _mask(rng, sh)
+            out.append({'kind': 'coords', 'shape': list(sh), 'mask': [float(x) for x in m.ravel()], 'shift': None, 'rotate': 0.0})
     for k in range({'quick': 3, 'thorough': 20, 'search': 3}[tier]):
         sh = (int(rng.integers(3, 8)), int(rng.integers(3, 8)))
         m = np.zeros(sh); m[int(rng.integers(0, sh[0])), int(rng.integers(0, sh[1]))] = 1.0
@@ -168,6 +182,11 @@ def tags(c):
         t += ['zern:normalized' if c['normalize'] else 'zern:raw', 'zern:n<=20' if c['j'] <= 231 else 'zern:n>20']
         if c.get('bad_outside'): t.append('zern:non-finite-coordinates-outside-mask')
     if k == 'coords' and c.get('one_sample'): t.append('coords:one-sample-mask')
+    if k in ('coords', 'zern'):
+        nz = [abs(x) for x in c['mask'] if x != 0]
+        if nz and min(nz) <= 1e-8: t.append(k + ':mask-with-tiny-weights(<=1e-8)')
+        if k == 'coords' and max(c['shape']) > 64: t.append('coords:large-array')
+    if k == 'index_list' and max(c['js']) >= 2 ** 31: t.append('index:j>=2^31')
     if k == 'gram': t.append('gram:diag' if c['j'] == c['j2'] else 'gram:offdiag')
     if k == 'coords':
         t.append(f"coords:{'even' if c['shape'][0] % 2 == 0 else 'odd'}x{'even' if c['shape'][1] % 2 == 0 else 'odd'}")
